@@ -80,8 +80,12 @@ SCmd ==
          cn == IF e.misb \in {"silent", "r1err"} THEN [c EXCEPT !.app = FALSE, !.last = e.idx]
                ELSE CardNext(c, cfg.kind, cfg.nblocks, e, e.r1)
          dataBad == e.data.what # "none" /\ ~e.data.intact
+         er == IF "erased" \in DOMAIN e THEN e.erased ELSE 0
+         erSpec == IF healthy THEN PreErased(c, e, e.r1) ELSE er
+         eb == ArgBlock(cfg.kind, e.ah, e.al)
+         erasedBlocks == {b \in eb..(eb + er - 1) : b >= 0 /\ b < cfg.nblocks}
          simtags == IF healthy /\ (e.r1 # r1spec \/ e.extra # CardExtra(c, cfg.kind, e, e.r1) \/ e.delay > 8
-                                   \/ (e.data.what # "none") # (e.r1 = 0 /\ ~e.acmd /\ e.idx \in {9, 17}))
+                                   \/ (e.data.what # "none") # (e.r1 = 0 /\ ~e.acmd /\ e.idx \in {9, 17}) \/ er # erSpec)
                     THEN {<<"TOOL", "Simulator", "card reply differs from SdCard.tla for command " \o ToString(e.idx)>>} ELSE {}
      IN /\ c' = [cn EXCEPT !.ident = IdentNext(c, cfg.kind, e, r1)]
         /\ viol' = Report(C14Tags(IF legal = "ok" \/ ~alive THEN {} ELSE {<<"C14", "Conversation", legal \o " (command " \o ToString(e.idx) \o ")">>})
@@ -93,14 +97,16 @@ SCmd ==
                         \cup (IF e.misb \in {"status", "status1"} THEN {"status"} ELSE {})
                         \cup (IF e.idx = 0 THEN {"reset"} ELSE {})
                         \cup (IF ~c.pw /\ e.idx # 0 THEN {"unpowered"} ELSE {})
+                        \cup (IF ~e.acmd /\ e.idx = 25 /\ e.r1 = 0 /\ c.last = 123 /\ call # NoCall /\ call.op = "write" /\ c.pre # call.n THEN {"prewrong"} ELSE {})
         /\ needinit' = IF e.idx = 0 THEN FALSE ELSE needinit
+        /\ mem' = [x \in DOMAIN mem \cup erasedBlocks |-> IF x \in erasedBlocks THEN -9 ELSE mem[x]]
         /\ c14' = (c14 \/ (legal # "ok" /\ alive))
         /\ dl' = IF e.data.what # "none" THEN Append(dl, DataStatus(e.data)) ELSE dl
         /\ stuck' = IF e.idx = 0 /\ e.r1 = 1 THEN FALSE ELSE stuck
         /\ lost' = IF e.idx = 0 /\ e.r1 = 1 THEN FALSE ELSE (lost \/ (e.misb \in {"silent", "r1err"} /\ c.mode # "Cmd"))
   /\ first' = FALSE
   /\ l' = l + 1
-  /\ UNCHANGED <<sid, cfg, mem, exp, call, alive, nst>>
+  /\ UNCHANGED <<sid, cfg, exp, call, alive, nst>>
 
 SIdle ==
   /\ IsEv("Idle")
@@ -190,7 +196,7 @@ SRet ==
             (IF e.k = "panic" THEN {<<"C13", "Panic", call.op \o ": " \o e.e>>} ELSE {})
        \cup (IF e.over THEN {<<"C13", "Hang", call.op \o " exceeded the SPI traffic budget">>} ELSE {})
        \* C12: on a healthy card with legal timing every call succeeds and is exact
-       \cup (IF ~ok /\ e.k # "panic" /\ ~e.over /\ ~Faulty /\ call.op # "mark_uninit" /\ ~(dataop /\ call.blk + call.n > cfg.nblocks)
+       \cup (IF ~ok /\ e.k # "panic" /\ ~e.over /\ ~Faulty /\ call.op # "mark_uninit" /\ ~(dataop /\ (call.blk + call.n > cfg.nblocks \/ call.blk >= cfg.nblocks))
              THEN {<<"C12", "Result", call.op \o " failed on a healthy card: " \o e.e>>} ELSE {})
        \cup (IF ok /\ call.op = "read" /\ e.pay # [i \in 1..call.n |-> MemAt(exp, blocks[i])]
                 /\ ~\E i \in 1..call.n : MemAt(exp, blocks[i]) = -1
@@ -203,6 +209,8 @@ SRet ==
        \cup (IF ok /\ call.op = "card_type" /\ e.e # cfg.kind THEN {<<"C12", "CardKind", "identified " \o e.e \o " for a " \o cfg.kind \o " card">>} ELSE {})
        \cup (IF ok /\ dataop /\ call.blk >= cfg.nblocks /\ ~Faulty
              THEN {<<"C12", "OutOfRange", call.op \o " beyond the card's capacity reported success">>} ELSE {})
+       \cup (IF call.op = "write" /\ "prewrong" \in seen
+             THEN {<<"C12", "PreErase", "the block count announced to the card (ACMD23) is not the number of blocks of the write">>} ELSE {})
        \* C13: what must be an error
        \cup (IF ok /\ cfg.crc /\ call.op \in {"read", "num_blocks", "num_bytes"} /\ \E i \in 1..Min2(call.n, Len(dl)) : dl[i] = "crc"
              THEN {<<"C13", "CorruptAccepted", "corrupted data returned as good although CRC is enabled">>} ELSE {})
